@@ -66,7 +66,7 @@ func analyseGet(P *Program) *getShape {
 		}
 	}
 	if g.link == nil || g.accept == nil || g.tolerated == nil || g.budget == nil {
-		broken("jtp.Get no longer has (link *url.URL, accept string, tolerated []string, budget integer) parameters")
+		unfollowed("jtp.Get no longer has (link *url.URL, accept string, tolerated []string, budget integer) parameters")
 	}
 	eachInstr(fn, func(_ *ssa.BasicBlock, _ int, in ssa.Instruction) {
 		call, ok := in.(*ssa.Call)
@@ -667,7 +667,7 @@ func c03R4(c *Ctx) {
 		}
 	}
 	if tolerated == nil {
-		broken("validateHeaders has no tolerated-list parameter")
+		unfollowed("validateHeaders has no tolerated-list parameter")
 	}
 	// Matches calls
 	var matches []*ssa.Call
